@@ -2,6 +2,8 @@ import GeoVerif.Model.Geoid
 import GeoVerif.Proofs.GeoidLoc
 import GeoVerif.Proofs.GeoidHeader
 import GeoVerif.Proofs.GeoidWindow
+import GeoVerif.Gen.GeoidH
+import Mathlib.Tactic.Linarith
 import Mathlib.Tactic.SplitIfs
 /-!
 # C20 — Geoid heights depend only on the data and the position (core Lean only)
@@ -389,5 +391,220 @@ theorem api_cache_mode_independent (f : File) (cubic : Bool) (hf : FileOK f) (op
   · rw [api_history_independent f cubic hf ops _ hs, api_history_independent f cubic hf ops _ (initSt_inv f cubic)]
 
 example : FileOK ⟨8, 5, .fin false 0 0, .fin false 1 0, #[]⟩ := ⟨by decide, by decide, by decide, by decide, by decide⟩
+
+open GeoVerif.GeoidHeader
+
+/-! ### the constructor: PGM header parsing and validation (byte-level model `Model/GeoidHeader.lean`) -/
+
+/-- the constants of the model are the ones in the source (re-extracted on every run) -/
+theorem header_constants_match_source :
+    Gen.GeoidH.magic.toList.map Char.toNat = magic ∧
+    Gen.GeoidH.keys.map (fun s => s.toList.map Char.toNat) = [keyDescription, keyDateTime, keyOffset, keyScale] ∧
+    Gen.GeoidH.cubicKeys.map (fun p => (p.1.toList.map Char.toNat, p.2.toList.map Char.toNat)) =
+      [(keyMaxCubic, keyMaxBilinear), (keyRMSCubic, keyRMSBilinear)] ∧
+    Gen.GeoidH.messages = Err.all.map Err.msg ∧
+    Gen.GeoidH.descDefault.toList.map Char.toNat = HState.init.description ∧
+    Gen.GeoidH.dateDefault.toList.map Char.toNat = HState.init.datetime ∧
+    Gen.GeoidH.pixelSize = pixelSize ∧ Gen.GeoidC.pixelMax = pixelMax := by decide
+
+/-- **`header_accept_iff`**: the constructor accepts a file exactly when the scanner finds magic, comment block, raster
+    size and maxval, and then: maxval = 65535, an offset other than the sentinel, a scale that is neither 0 nor
+    negative, width and height ≥ 2, width even, height odd, the stream position after maxval is known and the
+    file length equals `datastart + 2·width·height` (as coded, in 64-bit arithmetic) -/
+theorem header_accept_iff (cubic : Bool) (file : Bytes) (len : Nat) (H : Header) :
+    parse cubic file len = .ok H ↔
+      ∃ raw, scan cubic file = .ok raw ∧
+        raw.maxval = pixelMax ∧ F64.eq raw.st.offset Decimal.maxFinite = false ∧ F64.eq raw.st.scale 0 = false ∧
+        F64.lt raw.st.scale 0 = false ∧ 2 ≤ raw.w ∧ 2 ≤ raw.h ∧ raw.w % 2 = 0 ∧ raw.h % 2 = 1 ∧
+        ∃ p, raw.tell = some p ∧ lengthOKCoded (p + 1) raw.w raw.h len = true ∧ H = hdrOf raw (p + 1) := by
+  unfold parse
+  cases hs : scan cubic file with
+  | error e => simp
+  | ok raw =>
+    simp only [Except.ok.injEq, exists_eq_left']
+    exact validate_ok_iff raw len H
+
+/-- **the length test over unbounded naturals**: for every file shorter than 2^62 bytes of header (any real file) the
+    64-bit test of the code is the equation `datastart + 2·w·h = length` in ℕ — no length congruent to the right one
+    modulo 2^32 or 2^64 passes -/
+theorem header_accept_iff_nat (cubic : Bool) (file : Bytes) (len : Nat) (H : Header) (hfl : file.length < 2 ^ 62) (hlen : len < 2 ^ 64) :
+    parse cubic file len = .ok H ↔
+      ∃ raw p, scan cubic file = .ok raw ∧ raw.tell = some p ∧
+        raw.maxval = pixelMax ∧ F64.eq raw.st.offset Decimal.maxFinite = false ∧ F64.eq raw.st.scale 0 = false ∧
+        F64.lt raw.st.scale 0 = false ∧ 2 ≤ raw.w ∧ 2 ≤ raw.h ∧ raw.w % 2 = 0 ∧ raw.h % 2 = 1 ∧
+        p + 1 + 2 * raw.w.toNat * raw.h.toNat = len ∧ H = hdrOf raw (p + 1) := by
+  rw [header_accept_iff]
+  constructor
+  · rintro ⟨raw, hs, a1, a2, a3, a4, a5, a6, a7, a8, p, hp, hl, hH⟩
+    obtain ⟨⟨⟨_, w2⟩, ⟨_, h2⟩⟩, hpos⟩ := scan_props cubic file raw hs
+    have := hpos p hp
+    have hl' := (lengthOKCoded_iff (p + 1) raw.w raw.h len ⟨by omega, by omega⟩ ⟨by omega, by omega⟩ (by omega) hlen).mp hl
+    exact ⟨raw, p, hs, hp, a1, a2, a3, a4, a5, a6, a7, a8, hl', hH⟩
+  · rintro ⟨raw, p, hs, hp, a1, a2, a3, a4, a5, a6, a7, a8, hl, hH⟩
+    obtain ⟨⟨⟨_, w2⟩, ⟨_, h2⟩⟩, hpos⟩ := scan_props cubic file raw hs
+    have := hpos p hp
+    have hl' := (lengthOKCoded_iff (p + 1) raw.w raw.h len ⟨by omega, by omega⟩ ⟨by omega, by omega⟩ (by omega) hlen).mpr hl
+    exact ⟨raw, hs, a1, a2, a3, a4, a5, a6, a7, a8, p, hp, hl', hH⟩
+
+/-- **which exception**: a file is rejected with the exception of the first failing step, in the order of the source:
+    an error of the scanner, or else the first violated test of `validate` -/
+theorem header_reject_iff (cubic : Bool) (file : Bytes) (len : Nat) (e : Err) :
+    parse cubic file len = .error e ↔
+      scan cubic file = .error e ∨ ∃ raw, scan cubic file = .ok raw ∧ validate raw len = .error e := by
+  unfold parse
+  cases hs : scan cubic file with
+  | error e' => simp
+  | ok raw => simp
+
+/-- the order of the tests after the scan (`validate_error_iff` spelled out for a successfully scanned file) -/
+theorem header_reject_classes (raw : Raw) (len : Nat) :
+    (validate raw len = .error .maxvalValue ↔ raw.maxval ≠ pixelMax) ∧
+    (validate raw len = .error .offsetUnset ↔ raw.maxval = pixelMax ∧ F64.eq raw.st.offset Decimal.maxFinite = true) ∧
+    (validate raw len = .error .scaleUnset ↔ raw.maxval = pixelMax ∧ F64.eq raw.st.offset Decimal.maxFinite = false ∧ F64.eq raw.st.scale 0 = true) ∧
+    (validate raw len = .error .scaleNeg ↔ raw.maxval = pixelMax ∧ F64.eq raw.st.offset Decimal.maxFinite = false ∧ F64.eq raw.st.scale 0 = false ∧
+        F64.lt raw.st.scale 0 = true) ∧
+    (validate raw len = .error .tooSmall ↔ raw.maxval = pixelMax ∧ F64.eq raw.st.offset Decimal.maxFinite = false ∧ F64.eq raw.st.scale 0 = false ∧
+        F64.lt raw.st.scale 0 = false ∧ (raw.h < 2 ∨ raw.w < 2)) ∧
+    (validate raw len = .error .widthOdd ↔ raw.maxval = pixelMax ∧ F64.eq raw.st.offset Decimal.maxFinite = false ∧ F64.eq raw.st.scale 0 = false ∧
+        F64.lt raw.st.scale 0 = false ∧ 2 ≤ raw.h ∧ 2 ≤ raw.w ∧ raw.w % 2 = 1) ∧
+    (validate raw len = .error .heightEven ↔ raw.maxval = pixelMax ∧ F64.eq raw.st.offset Decimal.maxFinite = false ∧ F64.eq raw.st.scale 0 = false ∧
+        F64.lt raw.st.scale 0 = false ∧ 2 ≤ raw.h ∧ 2 ≤ raw.w ∧ raw.w % 2 = 0 ∧ raw.h % 2 = 0) ∧
+    (validate raw len = .error .wrongLength ↔ raw.maxval = pixelMax ∧ F64.eq raw.st.offset Decimal.maxFinite = false ∧ F64.eq raw.st.scale 0 = false ∧
+        F64.lt raw.st.scale 0 = false ∧ 2 ≤ raw.h ∧ 2 ≤ raw.w ∧ raw.w % 2 = 0 ∧ raw.h % 2 = 1 ∧
+        (raw.tell = none ∨ ∃ p, raw.tell = some p ∧ lengthOKCoded (p + 1) raw.w raw.h len = false)) ∧
+    (∀ e, validate raw len = .error e → e ∈ [Err.maxvalValue, .offsetUnset, .scaleUnset, .scaleNeg, .tooSmall, .widthOdd, .heightEven, .wrongLength]) :=
+  validate_error_iff raw len
+
+/-- **shape of an accepted raster**: even width in [2, 2^31), odd height in [3, 2^31), data inside the file -/
+theorem accepted_shape (cubic : Bool) (file : Bytes) (len : Nat) (H : Header) (hfl : file.length < 2 ^ 62) (hlen : len < 2 ^ 64)
+    (hacc : parse cubic file len = .ok H) :
+    2 ≤ H.w ∧ H.w % 2 = 0 ∧ H.w ≤ 2 ^ 31 - 1 ∧ 3 ≤ H.h ∧ H.h % 2 = 1 ∧ H.h ≤ 2 ^ 31 - 1 ∧
+    1 ≤ H.datastart ∧ H.datastart ≤ file.length ∧ (H.datastart : Int) + 2 * H.w * H.h = len := by
+  obtain ⟨raw, p, hs, hp, _, _, _, _, a5, a6, a7, a8, hl, rfl⟩ := (header_accept_iff_nat cubic file len H hfl hlen).mp hacc
+  obtain ⟨⟨⟨_, w2⟩, ⟨_, h2⟩⟩, hpos⟩ := scan_props cubic file raw hs
+  have := hpos p hp
+  simp only [hdrOf]
+  refine ⟨a5, a7, w2, by omega, a8, h2, by omega, by omega, ?_⟩
+  have e1 : ((raw.w.toNat : Nat) : Int) = raw.w := Int.toNat_of_nonneg (by omega)
+  have e2 : ((raw.h.toNat : Nat) : Int) = raw.h := Int.toNat_of_nonneg (by omega)
+  rw [← hl]
+  push_cast
+  rw [e1, e2]
+
+/-- an accepted raster has the shape the theorems on the interpolation need -/
+theorem accepted_fileOK (cubic : Bool) (file : Bytes) (len : Nat) (H : Header) (hfl : file.length < 2 ^ 62) (hlen : len < 2 ^ 64)
+    (hacc : parse cubic file len = .ok H) (f : File) (hw : f.w = H.w) (hh : f.h = H.h) : FileOK f := by
+  obtain ⟨a1, a2, a3, a4, _, a6, _⟩ := accepted_shape cubic file len H hfl hlen hacc
+  exact ⟨by omega, by omega, by omega, by omega, by omega⟩
+
+/-- a pixel inside the raster lies inside the file (both of its bytes), and its offset fits the signed 64-bit `streamoff` -/
+theorem pixel_in_file (H : Header) (len : Nat) (hw : 0 < H.w) (hlen : (H.datastart : Int) + 2 * H.w * H.h = len) (hl63 : len < 2 ^ 63)
+    (x y : Int) (hx : 0 ≤ x ∧ x < H.w) (hy : 0 ≤ y ∧ y < H.h) :
+    (H.datastart : Int) ≤ GeoidHeader.filepos H x y ∧ GeoidHeader.filepos H x y + 1 < len ∧ GeoidHeader.filepos H x y < 2 ^ 63 := by
+  unfold GeoidHeader.filepos
+  have h1 : 0 ≤ y * H.w := Int.mul_nonneg hy.1 (by omega)
+  have h2 : y * H.w ≤ (H.h - 1) * H.w := Int.mul_le_mul_of_nonneg_right (by omega) (by omega)
+  have h3 : (H.h - 1) * H.w = H.w * H.h - H.w := by ring
+  have h4 : 2 * H.w * H.h = 2 * (H.w * H.h) := by ring
+  have hl : ((len : Nat) : Int) < 2 ^ 63 := by exact_mod_cast hl63
+  refine ⟨by omega, by omega, by omega⟩
+
+/-- **accepted ⇒ every read of `height` is inside the file**: for every accepted file, every cell that the location
+    arithmetic can produce (`0 ≤ ix < w`, `−1 ≤ iy ≤ h − 2`, see `concrete_loc_in_raster`) and every point of the bilinear
+    and cubic stencils, the pixel that `rawval` addresses after longitude wrap and pole reflection lies inside the
+    file: `datastart ≤ filepos ∧ filepos + 1 < length`, and `filepos` does not overflow the stream offset -/
+theorem accepted_reads_in_file (cubic : Bool) (file : Bytes) (len : Nat) (H : Header) (hfl : file.length < 2 ^ 62) (hlen : len < 2 ^ 63)
+    (hacc : parse cubic file len = .ok H) (ix iy : Int) (hx : 0 ≤ ix ∧ ix < H.w) (hy : -1 ≤ iy ∧ iy ≤ H.h - 2) :
+    ∀ d ∈ stencilCubic ++ stencilBilinear,
+      (H.datastart : Int) ≤ GeoidHeader.filepos H (fileIdx ⟨H.w, H.h⟩ (ix + d.1) (iy + d.2)).1 (fileIdx ⟨H.w, H.h⟩ (ix + d.1) (iy + d.2)).2 ∧
+      GeoidHeader.filepos H (fileIdx ⟨H.w, H.h⟩ (ix + d.1) (iy + d.2)).1 (fileIdx ⟨H.w, H.h⟩ (ix + d.1) (iy + d.2)).2 + 1 < len ∧
+      GeoidHeader.filepos H (fileIdx ⟨H.w, H.h⟩ (ix + d.1) (iy + d.2)).1 (fileIdx ⟨H.w, H.h⟩ (ix + d.1) (iy + d.2)).2 < 2 ^ 63 := by
+  intro d hd
+  obtain ⟨a1, a2, _, a4, _, _, _, _, a9⟩ := accepted_shape cubic file len H hfl (by omega) hacc
+  obtain ⟨b1, b2, b3, b4⟩ := stencil_in_bounds ⟨H.w, H.h⟩ a1 a2 a4 ix iy hx hy d hd
+  exact pixel_in_file H len (by omega) a9 hlen _ _ ⟨b1, b2⟩ ⟨b3, b4⟩
+
+/-- **the cell that `Geoid::height` locates is inside the raster** for every binary64 position: `0 ≤ ix < w` and
+    `−1 ≤ iy ≤ h − 2` (row −1: only latitude +90 on the raster heights of the open finding "north-pole-row") -/
+theorem concrete_loc_in_raster (f : File) (hf : FileOK f) (lat lon : F64) (ix iy : Int) (fx fy : F64)
+    (h : locF f lat lon = some (ix, iy, fx, fy)) : (0 ≤ ix ∧ ix < f.w) ∧ (-1 ≤ iy ∧ iy ≤ f.h - 2) :=
+  ⟨locF_ix_range f hf.w2 hf.wmax lat lon ix iy fx fy h, locF_iy_range f hf.h3 hf.hmax lat lon ix iy fx fy h⟩
+
+/-- **header validation ⇒ in-file reads, end to end**: for an accepted file and *any* binary64 position, every pixel the
+    bilinear or cubic stencil of the located cell addresses lies inside the file -/
+theorem accepted_height_reads_in_file (cubic : Bool) (file : Bytes) (len : Nat) (H : Header) (hfl : file.length < 2 ^ 62) (hlen : len < 2 ^ 63)
+    (hacc : parse cubic file len = .ok H) (f : File) (hfw : f.w = H.w) (hfh : f.h = H.h)
+    (lat lon : F64) (ix iy : Int) (fx fy : F64) (hloc : locF f lat lon = some (ix, iy, fx, fy)) :
+    ∀ d ∈ stencilCubic ++ stencilBilinear,
+      (H.datastart : Int) ≤ GeoidHeader.filepos H (fileIdx ⟨H.w, H.h⟩ (ix + d.1) (iy + d.2)).1 (fileIdx ⟨H.w, H.h⟩ (ix + d.1) (iy + d.2)).2 ∧
+      GeoidHeader.filepos H (fileIdx ⟨H.w, H.h⟩ (ix + d.1) (iy + d.2)).1 (fileIdx ⟨H.w, H.h⟩ (ix + d.1) (iy + d.2)).2 + 1 < len ∧
+      GeoidHeader.filepos H (fileIdx ⟨H.w, H.h⟩ (ix + d.1) (iy + d.2)).1 (fileIdx ⟨H.w, H.h⟩ (ix + d.1) (iy + d.2)).2 < 2 ^ 63 := by
+  have hf := accepted_fileOK cubic file len H hfl (by omega) hacc f hfw hfh
+  obtain ⟨⟨x1, x2⟩, ⟨y1, y2⟩⟩ := concrete_loc_in_raster f hf lat lon ix iy fx fy hloc
+  rw [hfw] at x2; rw [hfh] at y2
+  exact accepted_reads_in_file cubic file len H hfl hlen hacc ix iy ⟨x1, x2⟩ ⟨y1, y2⟩
+
+
+/-- the pixel that `CacheArea` (as coded) stores at `_data[j][k]` is inside the raster, for every window `0 ≤ xoff < w`,
+    `xsize ≤ w` and every row from `−(h−1)` to `2(h−1)` (the windows of `cacheWindow` have rows in `[−1, h]`) -/
+theorem fillIdx_in_raster (Hd : Hdr) (hw : 2 ≤ Hd.w) (he : Hd.w % 2 = 0) (hh : 3 ≤ Hd.h) (xo yo xs : Int)
+    (h0 : 0 ≤ xo) (h1 : xo < Hd.w) (h2 : xs ≤ Hd.w) (j k : Int) (hk0 : 0 ≤ k) (hk : k < xs)
+    (hrow : -(Hd.h - 1) ≤ yo + j ∧ yo + j ≤ 2 * (Hd.h - 1)) :
+    (0 ≤ (fillIdx Hd xo yo xs j k).1 ∧ (fillIdx Hd xo yo xs j k).1 < Hd.w) ∧
+    (0 ≤ (fillIdx Hd xo yo xs j k).2 ∧ (fillIdx Hd xo yo xs j k).2 < Hd.h) := by
+  unfold fillIdx
+  simp only [Int.min_def]
+  generalize Hd.w = w at *
+  generalize Hd.h = h at *
+  split_ifs <;> omega
+
+/-- **accepted ⇒ every read of `CacheArea` is inside the file**, for every window the floating-point index arithmetic
+    can produce (arbitrary binary64 limits): every pixel stored in the cache comes from inside the file; in particular
+    the first sequential read of a row (`xs1 = min(w − iw1, xsize)` pixels from column `iw1`) does not run into the next
+    raster row -/
+theorem accepted_cache_reads_in_file (cubic : Bool) (file : Bytes) (len : Nat) (H : Header) (hfl : file.length < 2 ^ 62) (hlen : len < 2 ^ 63)
+    (hacc : parse cubic file len = .ok H) (f : File) (hfw : f.w = H.w) (hfh : f.h = H.h)
+    (so we no ea : F64) (xo yo xs ys : Int) (hwin : cacheWindow f cubic so we no ea = .set xo yo xs ys)
+    (j k : Int) (hj : 0 ≤ j ∧ j < ys) (hk : 0 ≤ k ∧ k < xs) :
+    (H.datastart : Int) ≤ GeoidHeader.filepos H (fillIdx ⟨H.w, H.h⟩ xo yo xs j k).1 (fillIdx ⟨H.w, H.h⟩ xo yo xs j k).2 ∧
+    GeoidHeader.filepos H (fillIdx ⟨H.w, H.h⟩ xo yo xs j k).1 (fillIdx ⟨H.w, H.h⟩ xo yo xs j k).2 + 1 < len := by
+  have hf := accepted_fileOK cubic file len H hfl (by omega) hacc f hfw hfh
+  obtain ⟨a1, a2, _, a4, _, _, _, _, a9⟩ := accepted_shape cubic file len H hfl (by omega) hacc
+  obtain ⟨c1, c2, c3, c4, c5, c6, c7⟩ := cacheWindow_ok f cubic hf.w2 hf.wev hf.wmax hf.h3 hf.hmax so we no ea xo yo xs ys hwin
+  rw [hfw] at c2 c4; rw [hfh] at c7
+  obtain ⟨⟨b1, b2⟩, ⟨b3, b4⟩⟩ := fillIdx_in_raster ⟨H.w, H.h⟩ a1 a2 a4 xo yo xs c1 c2 c4 j k hk.1 hk.2 (by constructor <;> (simp only []; omega))
+  have := pixel_in_file H len (by omega) a9 hlen _ _ ⟨b1, b2⟩ ⟨b3, b4⟩
+  exact ⟨this.1, this.2.1⟩
+
+/-- **structure of the header and "the last occurrence counts"**: for a file made of the magic line, a block of empty /
+    `#` lines, a raster-size line and the rest, the scanner is the fold of the comment lines followed by the size and
+    maxval extraction; and after the fold the offset and the scale are those of the *last* line that sets them (an
+    unreadable value anywhere in the block is an error: the fold does not succeed) -/
+theorem header_structure (cubic : Bool) (ls : List Bytes) (hls : ∀ l ∈ ls, 10 ∉ l ∧ (l = [] ∨ ∃ t, l = 35 :: t))
+    (sz rest : Bytes) (h10 : 10 ∉ sz) (c : Nat) (t : Bytes) (hsz : sz = c :: t) (hc : c ≠ 35) :
+    scan cubic (magic ++ 10 :: (joinLines ls ++ (sz ++ 10 :: rest))) =
+      match ls.foldlM (procLine cubic) HState.init with
+      | .error e => .error e
+      | .ok st =>
+        match sizeLine sz with
+        | none => .error .rasterSize
+        | some (w, h) => readMaxval st w h (magic.length + 1 + (joinLines ls).length + sz.length + 1) rest :=
+  scan_structured cubic ls hls sz rest h10 c t hsz hc
+
+theorem last_occurrence_counts (cubic : Bool) (ls : List Bytes) (st st' : HState) (h : ls.foldlM (procLine cubic) st = .ok st') :
+    st'.offset = ((ls.filterMap offsetOf).getLast?).getD st.offset ∧ st'.scale = ((ls.filterMap scaleOf).getLast?).getD st.scale :=
+  fold_offset_scale_last cubic ls st st' h
+
+/-! non-vacuity: a well-formed file is accepted with the expected fields; the same header with a data section congruent
+    modulo 2^32 to the announced 65536 × 32769 raster is rejected ("File has the wrong length"); duplicated keys -/
+example : (match parse true (str "P5\n# Offset -108\n# Scale 0.003\n2 3\n65535\n" ++ List.replicate 12 0) 53 with
+    | .ok H => H.w == 2 && H.h == 3 && H.datastart == 41 | .error _ => false) = true := by decide +kernel
+example : (match parse false (str "P5\n# Offset -108\n# Scale 0.003\n65536 32769\n65535\n" ++ List.replicate 16 0) (49 + 131072) with
+    | .error .wrongLength => true | _ => false) = true := by decide +kernel
+example : (match parse false (str "P5\n# Offset -108\n# Scale 0.003\n65536 32769\n65535\n" ++ List.replicate 16 0) (49 + 4295098368) with
+    | .ok H => H.w == 65536 && H.h == 32769 | _ => false) = true := by decide +kernel
+example : (match scan true (str "P5\n# Scale -1\n# Offset 77\n# Offset -108\n# Scale 0.5\n4 5\n65535\n") with
+    | .ok raw => F64.eq raw.st.offset (F64.ofInt (-108)) && F64.eq raw.st.scale (F64.fin false 1 (-1)) && raw.w == 4 && raw.h == 5 && raw.tell == some 61
+    | .error _ => false) = true := by decide +kernel
 
 end GeoVerif.Props.C20
